@@ -93,11 +93,20 @@ const InclSel ISEL[] = {
 	{"down-rec-sim", "dir=down,rec=yes,sim=yes", {true, false, true, false}},
 	{"down-rec-opt-nosim", "dir=down,rec=yes,optC=yes,sim=no", {true, true, false, false}},
 	{"down-rec-opt-sim", "dir=down,rec=yes,optC=yes,sim=yes", {true, false, false, false}},
+	// spellings that rely on the tool's defaults (dir=up, rec=no, optC=no, sim=no)
+	{"up-sim:defaults", "sim=yes", {true, false, false, false}},
+	{"up-sim:defaults2", "rec=no,sim=yes,timeS=no", {true, false, false, false}},
+	{"up-nosim:defaults", "sim=no", {true, false, true, false}},
+	{"down-nonrec-sim:defaults", "dir=down,sim=yes", {true, false, false, false}},
+	{"down-nonrec-nosim:defaults", "dir=down", {true, false, false, false}},
+	{"down-rec-nosim:defaults", "dir=down,rec=yes", {true, true, false, false}},
+	{"down-rec-sim:reordered", "sim=yes,rec=yes,dir=down", {true, false, true, false}},
+	{"down-rec-opt-nosim:reordered", "optC=yes,rec=yes,dir=down", {true, true, false, false}},
 	{"fa-antichains", "alg=antichains", {false, false, false, true}},
 	{"fa-congr-depth", "alg=congr,order=depth", {false, false, false, true}},
 	{"fa-congr-breadth", "alg=congr,order=breadth", {false, false, false, true}},
 };
-const int N_ISEL = 11;
+const int N_ISEL = 19, N_TREE_SEL = 16;
 
 void split2(const std::string& lit, std::string& a, std::string& b) { size_t q = lit.find(" || "); a = lit.substr(0, q); b = q == std::string::npos ? "" : lit.substr(q + 4); }
 
@@ -107,8 +116,8 @@ void op_cli(const Step& s) {
 	if (cmd == 4 && (rep == 1 || rep == 2)) throw Skip();     // witness: not implemented for the BDD encodings
 	if (cmd == 3) {
 		// selections that exist for the representation (and a few that do not: they must end in an error, not in a verdict)
-		if (rep == 3 && sel < 8) sel = 8 + sel % 3;
-		if (rep != 3 && sel >= 8) sel = sel % 8;
+		if (rep == 3 && sel < N_TREE_SEL) sel = N_TREE_SEL + sel % 3;
+		if (rep != 3 && sel >= N_TREE_SEL) sel = sel % N_TREE_SEL;
 		// a simulation request that the encoding cannot serve goes through ComputeSimulation first and must be reported as an error
 	}
 	const std::string P = prop_for(rep, cmd);
@@ -119,6 +128,9 @@ void op_cli(const Step& s) {
 	std::string ta, tb;
 	if (fa) { FAa = mdl::fa_from_lit(la); FAb = mdl::fa_from_lit(lb); ta = mdl::to_timbuk(FAa, "q"); tb = mdl::to_timbuk(FAb, "q"); }
 	else { A = mdl::from_lit(la); B = mdl::from_lit(lb); ta = mdl::to_timbuk(A, "q", nullptr, (s.arg(4) & 1) != 0); tb = mdl::to_timbuk(B, "q", nullptr, (s.arg(4) & 2) != 0); }
+	// a text file need not end with a newline
+	if (s.arg(4) & 4) while (!ta.empty() && ta.back() == '\n') ta.pop_back();
+	if (s.arg(4) & 8) while (!tb.empty() && tb.back() == '\n') tb.pop_back();
 	std::string fa_path = dir() + "/a.timbuk", fb_path = dir() + "/b.timbuk";
 	write_file(fa_path, ta); write_file(fb_path, tb);
 	std::vector<std::string> args = {"-r", REP[rep]};
@@ -127,7 +139,7 @@ void op_cli(const Step& s) {
 		// the tool does not prune before `sim` (it ignores -p / -s there), and the upward simulation is defined for automata
 		// without useless states (C04): the client hands over a trimmed automaton, as et_sim does through the API
 		prune = 0;
-		if (sim_up) { A = mdl::trim_useless(A); if (A.states().empty()) throw Skip(); ta = mdl::to_timbuk(A, "q", nullptr, (s.arg(4) & 1) != 0); write_file(fa_path, ta); }
+		if (sim_up) { A = mdl::trim_useless(A); if (A.states().empty()) throw Skip(); ta = mdl::to_timbuk(A, "q", nullptr, (s.arg(4) & 1) != 0); if (s.arg(4) & 4) while (!ta.empty() && ta.back() == '\n') ta.pop_back(); write_file(fa_path, ta); }
 	}
 	if (prune == 1 && cmd != 3 && cmd != 4) args.push_back("-p"); else if (prune == 2 && cmd != 3 && cmd != 4) args.push_back("-s"); else prune = 0;
 	if (cmd == 3) { args.push_back("-o"); args.push_back(ISEL[sel].opts); }
@@ -216,10 +228,11 @@ namespace vsim {
 
 // a CLI step for the given representation / command on a generated pair
 Step cli_step(Rng& r, int client, long rep, long cmd, const std::string& lit_a, const std::string& lit_b) {
-	return gen::mk(client, "cli", {rep, cmd, long(r.below(3)), long(r.below(N_ISEL)), long(r.below(4))}, lit_a + " || " + lit_b);
+	return gen::mk(client, "cli", {rep, cmd, long(r.below(3)), long(r.below(N_ISEL)), long(r.below(16))}, lit_a + " || " + lit_b);
 }
 
 void register_cli_ops() { register_op("cli", op_cli); }
+const std::string& cli_dir() { return g_dir; }
 
 void cli_prepare() {
 	const char* d = getenv("VSIM_TMP"); std::string base = d ? d : "build/tmp";
